@@ -784,31 +784,7 @@ pub fn c11(ctx: &Ctx) -> Report {
         rep.evaluations += n * 10;
         rep.transitions += n * 10;
     }
-    // a long run: more ticks than a 16-bit (quick) / 32-bit (thorough) counter can hold, the phase compared with the
-    // exact multiple of the increment every 2^16 ticks
-    {
-        let total: u64 = if ctx.tier.is_thorough() { (1u64 << 32) + 70_000 } else { (1u64 << 25) + 70_000 };
-        let mut l = Lfo::new(FS0);
-        let k: u32 = 1_234_567;
-        l.set_frequency(inc_freq(k));
-        let mut expect: u32 = 0;
-        let mut bad = false;
-        for t in 1..=total {
-            l.tick();
-            expect = expect.wrapping_add(k) & (M24 - 1);
-            if t % 65536 == 0 || t == total || (t > 65530 && t < 65545) {
-                if phase_of(&l) != Ok(expect) {
-                    rep.violation(viol("C11", "drift-in-a-long-run", format!("after {} ticks at increment {} the phase counter is {:?}, expected {}", t, k, phase_of(&l), expect), FS0, vec![format!("freq:{:?}", inc_freq(k)), format!("tick*{}", t)]));
-                    bad = true;
-                    break;
-                }
-            }
-        }
-        let _ = bad;
-        rep.count("long_run_ticks", total);
-        rep.evaluations += total;
-        rep.transitions += total;
-    }
+    long_runs(ctx, &mut rep, "C11");
     rep.mark("frequency grid");
     // (c)
     for (fs, d) in [(1000.0f32, if ctx.tier.is_thorough() { 9 } else { 6 }), (192000.0, if ctx.tier.is_thorough() { 8 } else { 5 })] {
@@ -930,4 +906,38 @@ pub fn set_phase_sweep(ctx: &Ctx, rep: &mut Report, stride: u64, props: &[&'stat
     }
     rep.evaluations += n;
     rep.subruns.push(json!({"engine": "E2-sweep", "what": "set_phase over f32 bit patterns", "patterns": n, "stride": stride}));
+}
+
+/// long runs: more ticks than a 16-bit (quick) / 32-bit (thorough) counter can hold at a large odd increment, and
+/// more than 2^16 cycle wraps (f = fs and f = fs/2); the phase is compared with the exact multiple of the
+/// increment every 2^16 ticks and around tick 2^16; a panic is a violation
+pub fn long_runs(ctx: &Ctx, rep: &mut Report, prop: &'static str) {
+    let total: u64 = if ctx.tier.is_thorough() { (1u64 << 32) + 70_000 } else { (1u64 << 25) + 70_000 };
+    let runs: [(u32, u64); 3] = [(1_234_567, total), (M24, 140_000), (M24 / 2, 280_000)];
+    for (k, n) in runs {
+        let r = std::panic::catch_unwind(|| {
+            let mut l = Lfo::new(FS0);
+            l.set_frequency(inc_freq(k));
+            let mut expect: u32 = 0;
+            for t in 1..=n {
+                l.tick();
+                expect = expect.wrapping_add(k) & (M24 - 1);
+                if t % 65536 == 0 || t == n || (t > 65530 && t < 65545) || (t > 131060 && t < 131080) {
+                    let _ = read(&l);
+                    if phase_of(&l) != Ok(expect) {
+                        return Some((t, phase_of(&l), expect));
+                    }
+                }
+            }
+            None
+        });
+        match r {
+            Ok(None) => {}
+            Ok(Some((t, got, expect))) => rep.violation(viol(prop, "drift-in-a-long-run", format!("after {} ticks at increment {} the phase counter is {:?}, expected {}", t, k, got, expect), FS0, vec![format!("freq:{:?}", inc_freq(k)), format!("tick*{}", t)])),
+            Err(e) => rep.violation(viol(prop, "panic-in-a-long-run", format!("the real code panicked during {} ticks at increment {} ({} cycle wraps): {}", n, k, (n as u128 * k as u128) >> 24, panic_msg(&e)), FS0, vec![format!("freq:{:?}", inc_freq(k)), format!("tick*{}", n)])),
+        }
+        rep.count("long_run_ticks", n);
+        rep.evaluations += n;
+        rep.transitions += n;
+    }
 }
